@@ -287,7 +287,7 @@ macro_rules! c01_g {
 const PL_A: [Point; 3] = [Point::new(0, 0), Point::new(4, 2), Point::new(1, 5)];
 const PL_B: [Point; 1] = [Point::new(2, 2)];
 fn tri_a() -> Triangle { Triangle::new(Point::new(0, 0), Point::new(4, 1), Point::new(1, 3)) }
-fn tri_s() -> Triangle { Triangle::new(Point::new(0, 0), Point::new(3, 0), Point::new(1, 2)) }
+fn tri_s() -> Triangle { Triangle::new(Point::new(0, 0), Point::new(0, 2), Point::new(3, 1)) }
 fn tri_b() -> Triangle { Triangle::new(Point::new(-3, 2), Point::new(1, -2), Point::new(3, 3)) }
 c01_g!(c01_c02_q_g_triangles_fill, 24, [
     (tri_a(), |f, _s| style(0, StrokeAlignment::Center, Some(f), None)),
@@ -299,8 +299,7 @@ c01_g!(c01_c02_t_g_triangle_stroke1, 16, [
     (tri_s(), |f, s| style(1, StrokeAlignment::Center, Some(f), Some(s))),
 ]);
 // fill colour set, stroke width > 0 but NO stroke colour
-#[cfg(feature = "thorough")]
-c01_g!(c01_c02_t_g_triangle_fill_nostroke_w1, 16, [
+c01_g!(c01_c02_q_g_triangle_fill_nostroke_w1, 16, [
     (tri_s(), |f, _s| style(1, StrokeAlignment::Inside, Some(f), None)),
 ]);
 #[cfg(feature = "thorough")]
